@@ -166,6 +166,12 @@ add_dir(const std::string& path)
     S.dirs.push_back(normalize(path));
 }
 
+void
+remove(const std::string& path)
+{
+    S.files.erase(normalize(path));
+}
+
 const std::vector<Event>&
 events()
 {
